@@ -332,6 +332,7 @@ def plan(tier, seed):
             items.append({"kind": "sideops", "model": model, "screen": idx})
             items.append({"kind": "incremental", "model": model, "screen": idx})
             items.append({"kind": "intmask", "model": model, "screen": idx})
+            items.append({"kind": "partial", "model": model, "screen": idx})
     return items
 
 
@@ -755,7 +756,62 @@ def run_incremental_item(item, col, tier):
                           f"{model} model, screen {idx}: observed rows added in two calls ({k} + {len(obs_idx) - k}): {what}", case)
 
 
+def run_partial_item(item, col, tier):
+    """Results for PART of a plate are recorded (set_observed on some of its wells): exactly those wells become observed and
+    the model is trained on exactly the observed wells - the placeholders of the other wells of the plate stay behind the mask."""
+    model, idx = item["model"], item["screen"]
+    rows = base_rows(model, idx)
+    plates = {}
+    for i, r in enumerate(rows):
+        if not r[4]:
+            plates.setdefault(r[1], []).append(i)
+    for pname, members in sorted(plates.items()):
+        if len(members) < 2:
+            continue
+        for k in range(1, len(members)):
+            for chosen in itertools.combinations(members, k):
+                for v in (0.5, 0.0, float("nan"), 1e300):
+                    case = {"kind": "partial", "model": model, "screen": idx, "plate": pname, "wells": list(chosen), "placeholder": v}
+                    col.evaluations += 1
+                    col.states += 1
+                    col.transitions += 2
+                    var = {i: v for i in members if i not in chosen}
+                    rows_v = apply_variant(rows, var)
+                    screen = make_screen(rows_v, control=CTL)
+                    sel = np.zeros(len(rows), dtype=bool)
+                    sel[list(chosen)] = True
+                    results = np.array([0.31 + 0.07 * j for j in range(len(chosen))], dtype=float)
+                    screen.set_observed(sel, results)
+                    want_mask = [bool(r[4]) or bool(sel[i]) for i, r in enumerate(rows)]
+                    got_mask = [bool(x) for x in screen.observation_mask]
+                    if got_mask != want_mask:
+                        col.violation(f"C04|partial-plate|mask|{model}", f"{model} model, screen {idx}: set_observed on wells {list(chosen)} of plate {pname} gives mask {got_mask}, "
+                                                                        f"exactly those wells were recorded ({want_mask})", case)
+                        continue
+                    m = make_model(model, screen)
+                    try:
+                        m.add_observations(screen.subset_observed())
+                    except Exception as exc:  # noqa: BLE001
+                        if not exception_origin_in_repo(exc):
+                            raise
+                        col.refused += 1
+                        col.outcome("partial", model, "refused")
+                        continue
+                    ta = training_arrays(m)
+                    rows2 = []
+                    it = iter(results.tolist())
+                    for i, r in enumerate(rows):
+                        rows2.append((r[0], r[1], r[2], next(it), True) if sel[i] else (r[0], r[1], r[2], r[3], bool(r[4])))
+                    msg = compare_training(reference_training(model, rows2, screen), ta)
+                    if msg:
+                        col.violation(f"C04|partial-plate|training-set|{model}", f"{model} model, screen {idx}: wells {list(chosen)} of plate {pname} recorded, the others hold {v}: {msg}", case)
+                    col.outcome("partial", model, idx, digest(tuple(a.tobytes() for a in ta)))
+                    col.nontriv("partial", model, idx, pname, chosen, str(v))
+
+
 def run_item(item, col, tier):
+    if item["kind"] == "partial":
+        return run_partial_item(item, col, tier)
     if item["kind"] == "incremental":
         return run_incremental_item(item, col, tier)
     if item["kind"] == "intmask":
@@ -809,4 +865,6 @@ def replay(case, col):
         run_incremental_item({"model": model, "screen": idx}, col, tier)
     elif kind == "intmask":
         run_intmask_item({"model": model, "screen": idx}, col, tier)
+    elif kind == "partial":
+        run_partial_item({"model": model, "screen": idx}, col, tier)
     col.evaluations += 1
